@@ -119,3 +119,304 @@ Proof.
     destruct tys as [|t' [|]]; try reflexivity.
     rewrite fst_bind_s, IHvf. reflexivity.
 Qed.
+
+(** ** the bound *)
+Lemma unmarshal_ps_array_eq' vf be e c : unmarshal_ps (S vf) be (TArray e) c =
+  tick (
+  dos c <- lift (u_enter c);
+  dos r <- (dos h <- lift (u_header be (align e) c);
+           dos vs <- sub_loop_s (unmarshal_ps (S vf) be e) (S (N.to_nat (fst h))) (fst (snd h)) [];
+           lift (Ok (VArray e vs, snd (snd h))));
+  lift (Ok (fst r, u_leave (snd r)))).
+Proof.
+  rewrite unmarshal_ps_array_eq. unfold u_header. f_equal. destruct (u_enter c) as [c0| | | |]; try reflexivity.
+  rewrite !bind_s_lift_ok. f_equal.
+  destruct (u_read_fixed be 4 c0) as [r| | | |]; cbn [bind]; [rewrite bind_s_lift_ok|reflexivity..].
+  destruct (check_array_len (fst r)) as [n| | | |]; cbn [bind]; [rewrite bind_s_lift_ok|reflexivity..].
+  destruct (u_align (align e) (snd r)) as [c1| | | |]; cbn [bind]; [rewrite bind_s_lift_ok|reflexivity..].
+  destruct (u_sub n c1) as [s| | | |]; cbn [bind]; [rewrite !bind_s_lift_ok|reflexivity..]. reflexivity.
+Qed.
+Lemma unmarshal_ps_dict_eq' vf be k v c : unmarshal_ps (S vf) be (TDict k v) c =
+  tick (
+  dos c <- lift (u_enter c);
+  dos r <- (dos h <- lift (u_header be 8 c);
+           dos kvs <- sub_loop_s (fun c => dos c <- lift (u_align 8 c);
+                                        dos kr <- tick (lift (u_base be k c));
+                                        dos vr <- unmarshal_ps (S vf) be v (snd kr);
+                                        lift (Ok ((fst kr, fst vr), snd vr)))
+                              (S (N.to_nat (fst h))) (fst (snd h)) [];
+           lift (Ok (VDict k v kvs, snd (snd h))));
+  lift (Ok (fst r, u_leave (snd r)))).
+Proof.
+  rewrite unmarshal_ps_dict_eq. unfold u_header. f_equal. destruct (u_enter c) as [c0| | | |]; try reflexivity.
+  rewrite !bind_s_lift_ok. f_equal.
+  destruct (u_read_fixed be 4 c0) as [r| | | |]; cbn [bind]; [rewrite bind_s_lift_ok|reflexivity..].
+  destruct (check_array_len (fst r)) as [n| | | |]; cbn [bind]; [rewrite bind_s_lift_ok|reflexivity..].
+  destruct (u_align 8 (snd r)) as [c1| | | |]; cbn [bind]; [rewrite bind_s_lift_ok|reflexivity..].
+  destruct (u_sub n c1) as [s| | | |]; cbn [bind]; [rewrite !bind_s_lift_ok|reflexivity..]. reflexivity.
+Qed.
+
+(** a good counted result of a value decoder started in context [c] when a byte weighs [w] steps *)
+Definition pgood {A} (w : N) (c : uctx) (x : counted (A * uctx)) : Prop :=
+  match fst x with
+  | Ok r => snd r = set_off c (uoff (snd r)) /\ uoff c < uoff (snd r) <= len (ubuf c)
+            /\ snd x + w * uoff c <= w * uoff (snd r)
+  | Err => snd x + w * uoff c <= w * len (ubuf c) + w
+  | _ => False
+  end.
+(** the same for one round of a loop (one call), its own step included *)
+Definition prgood {A} (v : N) (c : uctx) (x : counted (A * uctx)) : Prop :=
+  match fst x with
+  | Ok r => snd r = set_off c (uoff (snd r)) /\ uoff c < uoff (snd r) <= len (ubuf c)
+            /\ 1 + snd x + v * uoff c <= v * uoff (snd r)
+  | Err => 1 + snd x + v * uoff c <= v * len (ubuf c) + v
+  | _ => False
+  end.
+
+Lemma pgood_tick {A} w c (x : counted (A * uctx)) : prgood w c x -> pgood w c (tick x).
+Proof. unfold pgood, prgood. rewrite fst_tick, snd_tick. destruct (fst x); auto. Qed.
+Lemma pgood_prgood {A} w c (x : counted (A * uctx)) : uoff c <= len (ubuf c) -> pgood w c x -> prgood (w + 1) c x.
+Proof. unfold pgood, prgood. intros Hp. destruct (fst x); auto; intros H; intuition lia. Qed.
+Lemma prgood_err0 {A} w c : 1 <= w -> uoff c <= len (ubuf c) -> @prgood A w c (Err, 0).
+Proof. intros Hw Ho. unfold prgood. cbn [fst snd]. pose proof (N.mul_le_mono_l _ _ w Ho). lia. Qed.
+Lemma prgood_leaf {A} w c (o : outcome (A * uctx)) : 1 <= w -> uoff c <= len (ubuf c) -> good c o -> prgood w c (lift o).
+Proof.
+  intros Hw Ho. unfold prgood, lift. cbn [fst snd]. destruct o as [r| | | |]; cbn [good]; auto.
+  - intros [H1 H2]. repeat split; try assumption; try lia. nia.
+  - intros _. pose proof (N.mul_le_mono_l _ _ w Ho). lia.
+Qed.
+Lemma bind_s_lift_err {A B} (f : A -> counted B) : bind_s (lift Err) f = (Err, 0).
+Proof. reflexivity. Qed.
+
+Lemma sub_loop_s_good {A} (P : uctx -> Prop) (one : uctx -> counted (A * uctx)) v :
+  (forall c o, P c -> P (set_off c o)) ->
+  (forall c, uoff c <= len (ubuf c) -> P c -> prgood v c (one c)) ->
+  forall lf c acc, uoff c <= len (ubuf c) -> P c -> (N.to_nat (len (ubuf c) - uoff c) < lf)%nat ->
+    let x := sub_loop_s one lf c acc in
+    match fst x with
+    | Ok _ => snd x + v * uoff c <= v * len (ubuf c)
+    | Err => snd x + v * uoff c <= v * len (ubuf c) + v
+    | _ => False
+    end.
+Proof.
+  intros HP Hone. induction lf as [|lf IH]; intros c acc Hc Pc Hf; cbn [sub_loop_s]; unfold remainder_len;
+    destruct (N.eqb_spec (len (ubuf c) - uoff c) 0) as [Hz|Hnz]; cbv zeta.
+  - cbn [fst snd]. assert (E : len (ubuf c) = uoff c) by lia. rewrite E. lia.
+  - lia.
+  - cbn [fst snd]. assert (E : len (ubuf c) = uoff c) by lia. rewrite E. lia.
+  - rewrite fst_tick, snd_tick. unfold bind_s. pose proof (Hone c Hc Pc) as G. unfold prgood in G.
+    destruct (one c) as [r s]. cbn [fst snd] in *. destruct r as [x| | | |]; cbn [fst snd]; try exact G.
+    destruct G as (E & Hr & Hs). destruct x as [a c']. cbn [fst snd] in *.
+    assert (H1 : uoff c' <= len (ubuf c')) by (rewrite E; cbn [set_off ubuf uoff]; lia).
+    assert (H2 : P c') by (rewrite E; now apply HP).
+    assert (H3 : (N.to_nat (len (ubuf c') - uoff c') < lf)%nat) by (rewrite E; cbn [set_off ubuf uoff]; lia).
+    specialize (IH c' (a :: acc) H1 H2 H3). cbv zeta in IH.
+    assert (Lb : len (ubuf c') = len (ubuf c)) by (rewrite E; reflexivity).
+    destruct (sub_loop_s one lf c' (a :: acc)) as [r2 s2]. cbn [fst snd] in *. rewrite Lb in IH.
+    destruct r2 as [u| | | |]; try exact IH; lia.
+Qed.
+
+Lemma p_fields_s_good (P : uctx -> Prop) (one : ty -> uctx -> counted (val * uctx)) v :
+  (forall c o, P c -> P (set_off c o)) ->
+  forall ts, (forall f c, In f ts -> uoff c <= len (ubuf c) -> P c -> prgood v c (one f c)) ->
+  forall c acc, uoff c <= len (ubuf c) -> P c ->
+    let x := p_fields_s one ts c acc in
+    match fst x with
+    | Ok r => moved c (snd r) /\ uoff c + len ts <= uoff (snd r) /\ snd x + v * uoff c <= v * uoff (snd r)
+    | Err => snd x + v * uoff c <= v * len (ubuf c) + v
+    | _ => False
+    end.
+Proof.
+  intros HP. induction ts as [|f r IH]; intros Hone c acc Hc Pc; cbn [p_fields_s]; cbv zeta.
+  - cbn [lift fst snd]. change (len (@nil ty)) with 0. split; [split; [now destruct c|lia]|lia].
+  - rewrite fst_tick, snd_tick. unfold bind_s. pose proof (Hone f c (or_introl eq_refl) Hc Pc) as G. unfold prgood in G.
+    destruct (one f c) as [r1 s1]. cbn [fst snd] in *. destruct r1 as [x| | | |]; cbn [fst snd]; try exact G.
+    destruct G as (E & Hr & Hs). destruct x as [a c']. cbn [fst snd] in *.
+    assert (H1 : uoff c' <= len (ubuf c')) by (rewrite E; cbn [set_off ubuf uoff]; lia).
+    assert (H2 : P c') by (rewrite E; now apply HP).
+    specialize (IH (fun f' c'' Hin => Hone f' c'' (or_intror Hin)) c' (a :: acc) H1 H2). cbv zeta in IH.
+    assert (Lb : len (ubuf c') = len (ubuf c)) by (rewrite E; reflexivity).
+    assert (Hm0 : moved c c') by (split; [exact E|lia]).
+    destruct (p_fields_s one r c' (a :: acc)) as [r2 s2]. cbn [fst snd] in *. rewrite Lb in IH. rewrite len_cons.
+    destruct r2 as [y| | | |]; try exact IH; [|lia].
+    destruct IH as (Hm & Hl & Hs2). split; [eapply moved_trans; eassumption|]. lia.
+Qed.
+
+Ltac perr := unfold bind_s; cbn [fst snd lift]; apply prgood_err0; [assumption|lia].
+
+Theorem unmarshal_ps_good be : forall vf t c,
+  wf t = true -> uoff c <= len (ubuf c) -> (1 <= vf)%nat -> 65 <= N.of_nat vf + udepth c ->
+  pgood (step_weight (udepth c)) c (unmarshal_ps vf be t c).
+Proof.
+  induction vf as [|vf IHvf]; [intros; lia|].
+  induction t as [b|e IHe|ts IHts|kt vt IHv|] using ty_ind'; intros c Hwf Hc Hvf1 Hvf;
+    pose proof (step_weight_pos (udepth c)) as Hw.
+  - rewrite unmarshal_ps_base_eq. apply pgood_tick, prgood_leaf; try assumption. now apply u_base_good.
+  - rewrite unmarshal_ps_array_eq'. apply pgood_tick. cbn [wf] in Hwf.
+    destruct (u_enter c) as [c0| | | |] eqn:Een; try (unfold u_enter in Een; destruct (_ <=? _); discriminate); [|perr].
+    rewrite bind_s_lift_ok. pose proof (u_enter_ok _ _ Een) as [Hd Ec0].
+    rewrite (step_weight_succ _ Hd) in *. pose proof (step_weight_pos (udepth c + 1)) as Hw'. set (w' := step_weight (udepth c + 1)) in *.
+    assert (Hc0 : uoff c0 <= len (ubuf c0)) by (rewrite Ec0; exact Hc).
+    pose proof (u_header_good be (align e) c0 Hc0) as G.
+    destruct (u_header be (align e) c0) as [[n [s c3]]| | | |]; try (exfalso; exact G); [|perr].
+    rewrite bind_s_lift_ok. cbn [fst snd]. destruct G as (o & Es & Ec3 & Ho & Hon).
+    assert (Ls : len (ubuf s) = o + n) by (rewrite Es; cbn [ubuf]; apply len_firstnN_le; lia).
+    assert (Hone : forall c', uoff c' <= len (ubuf c') -> udepth c' = udepth c + 1 ->
+                     prgood (w' + 1) c' (unmarshal_ps (S vf) be e c')).
+    { intros c' Hc' Hp. apply pgood_prgood; [assumption|]. unfold w'. rewrite <- Hp. apply (IHe c' Hwf Hc' Hvf1).
+      rewrite Hp. lia. }
+    pose proof (sub_loop_s_good (fun c' => udepth c' = udepth c + 1) (unmarshal_ps (S vf) be e) (w' + 1)
+             (fun c' o' Hp => Hp) Hone
+             (S (N.to_nat n)) s []
+             ltac:(rewrite Ls, Es; cbn [uoff]; lia) ltac:(rewrite Es, Ec0; reflexivity)
+             ltac:(rewrite Ls, Es; cbn [uoff]; lia)) as G2. cbv zeta in G2.
+    assert (Hm : moved c0 c3) by (split; [rewrite Ec3; reflexivity|rewrite Ec3; cbn [set_off uoff]; lia]).
+    destruct (leave_moved _ _ _ Een Hm) as [E1 E2].
+    assert (Eo : uoff s = o) by (rewrite Es; reflexivity).
+    assert (Eu : uoff (u_leave c3) = o + n) by (rewrite Ec3; reflexivity).
+    assert (Eb : len (ubuf c0) = len (ubuf c) /\ uoff c0 = uoff c) by (rewrite Ec0; split; reflexivity). destruct Eb as [Eb1 Eb2].
+    unfold bind_s. destruct (sub_loop_s _ _ s []) as [r2 s2]. cbn [fst snd] in G2 |- *. rewrite Ls, Eo in G2. unfold prgood.
+    destruct r2 as [vs| | | |]; cbn [fst snd lift]; try exact G2.
+    + split; [exact E1|]. rewrite Eu. split; [lia|].
+      pose proof (N.mul_le_mono_l (uoff c + 4 + n) (o + n) (w' + 2) ltac:(lia)). nia.
+    + pose proof (N.mul_le_mono_l (uoff c + n) (len (ubuf c)) (w' + 2) ltac:(lia)). nia.
+  - rewrite unmarshal_ps_struct_eq. apply pgood_tick. cbn [wf] in Hwf. apply andb_prop in Hwf. destruct Hwf as [Hne Hwf].
+    destruct (u_enter c) as [c0| | | |] eqn:Een; try (unfold u_enter in Een; destruct (_ <=? _); discriminate); [|perr].
+    rewrite bind_s_lift_ok. pose proof (u_enter_ok _ _ Een) as [Hd Ec0].
+    rewrite (step_weight_succ _ Hd) in *. pose proof (step_weight_pos (udepth c + 1)) as Hw'. set (w' := step_weight (udepth c + 1)) in *.
+    assert (Hc0 : uoff c0 <= len (ubuf c0)) by (rewrite Ec0; exact Hc).
+    pose proof (u_align_moved 8 c0 Hc0) as G. destruct (u_align 8 c0) as [c1| | | |]; try (exfalso; exact G); [|perr].
+    rewrite bind_s_lift_ok.
+    destruct ts as [|t0 ts']; [discriminate|]. set (ts := t0 :: ts') in *.
+    rewrite forallb_forall in Hwf. rewrite Forall_forall in IHts.
+    assert (Hc1 : uoff c1 <= len (ubuf c1)) by (destruct G as [E ?]; rewrite E; cbn [set_off ubuf uoff]; lia).
+    assert (Hone : forall f c', In f ts -> uoff c' <= len (ubuf c') -> udepth c' = udepth c + 1 ->
+                     prgood (w' + 1) c' (unmarshal_ps (S vf) be f c')).
+    { intros f c' Hin Hc' Hp. apply pgood_prgood; [assumption|]. unfold w'. rewrite <- Hp.
+      apply (IHts f Hin c' (Hwf f Hin) Hc' Hvf1). rewrite Hp. lia. }
+    pose proof (p_fields_s_good (fun c' => udepth c' = udepth c + 1) (unmarshal_ps (S vf) be) (w' + 1)
+                  (fun c' o' Hp => Hp) ts Hone c1 [] Hc1
+                  ltac:(destruct G as [E ?]; rewrite E, Ec0; reflexivity)) as G2. cbv zeta in G2.
+    assert (Eb : len (ubuf c0) = len (ubuf c) /\ uoff c0 = uoff c) by (rewrite Ec0; split; reflexivity). destruct Eb as [Eb1 Eb2].
+    assert (Eb3 : len (ubuf c1) = len (ubuf c)) by (destruct G as [E ?]; rewrite E; exact Eb1).
+    unfold ts at 1. unfold bind_s. fold ts. destruct (p_fields_s _ ts c1 []) as [r2 s2]. cbn [fst snd] in G2 |- *. unfold prgood.
+    destruct r2 as [r| | | |]; cbn [fst snd lift]; try exact G2.
+    + destruct G2 as (Hm2 & Hl2 & Hs2). pose proof (moved_trans _ _ _ G Hm2) as Hm.
+      destruct (leave_moved _ _ _ Een Hm) as [E1 E2]. split; [exact E1|].
+      unfold ts in Hl2. rewrite len_cons in Hl2. destruct G as [_ G].
+      change (uoff (u_leave (snd r))) with (uoff (snd r)) in *. rewrite Eb2 in *.
+      split; [destruct Hm2 as [_ Hm2]; lia|].
+      pose proof (N.mul_le_mono_l (uoff c) (uoff c1) (w' + 1) ltac:(lia)). nia.
+    + destruct G as [_ G]. rewrite Eb2, Eb3 in *.
+      pose proof (N.mul_le_mono_l (uoff c) (uoff c1) (w' + 1) ltac:(lia)).
+      pose proof (N.mul_le_mono_l (uoff c) (len (ubuf c)) 1 Hc). nia.
+  - rewrite unmarshal_ps_dict_eq'. apply pgood_tick. cbn [wf] in Hwf.
+    destruct (u_enter c) as [c0| | | |] eqn:Een; try (unfold u_enter in Een; destruct (_ <=? _); discriminate); [|perr].
+    rewrite bind_s_lift_ok. pose proof (u_enter_ok _ _ Een) as [Hd Ec0].
+    rewrite (step_weight_succ _ Hd) in *. pose proof (step_weight_pos (udepth c + 1)) as Hw'. set (w' := step_weight (udepth c + 1)) in *.
+    assert (Hc0 : uoff c0 <= len (ubuf c0)) by (rewrite Ec0; exact Hc).
+    pose proof (u_header_good be 8 c0 Hc0) as G.
+    destruct (u_header be 8 c0) as [[n [s c3]]| | | |]; try (exfalso; exact G); [|perr].
+    rewrite bind_s_lift_ok. cbn [fst snd]. destruct G as (o & Es & Ec3 & Ho & Hon).
+    assert (Ls : len (ubuf s) = o + n) by (rewrite Es; cbn [ubuf]; apply len_firstnN_le; lia).
+    set (one := fun c => dos c <- lift (u_align 8 c); dos kr <- tick (lift (u_base be kt c));
+                         dos vr <- unmarshal_ps (S vf) be vt (snd kr); lift (Ok ((fst kr, fst vr), snd vr))).
+    assert (Hone : forall c', uoff c' <= len (ubuf c') -> udepth c' = udepth c + 1 -> prgood (w' + 1) c' (one c')).
+    { intros c' Hc' Hp. unfold one. assert (Hv : 1 <= w' + 1) by lia.
+      pose proof (u_align_moved 8 c' Hc') as G1.
+      destruct (u_align 8 c') as [c1| | | |]; try (exfalso; exact G1); [|perr]. rewrite bind_s_lift_ok. destruct G1 as [E1 H1].
+      assert (Hc1 : uoff c1 <= len (ubuf c1)) by (rewrite E1; cbn [set_off ubuf uoff]; lia).
+      assert (L1 : len (ubuf c1) = len (ubuf c')) by (rewrite E1; reflexivity).
+      pose proof (u_base_good be kt c1 Hc1) as Gk. unfold bind_s at 1. rewrite fst_tick, snd_tick, fst_lift, snd_lift.
+      destruct (u_base be kt c1) as [kr| | | |]; cbn [good] in Gk; try (exfalso; exact Gk).
+      2:{ unfold prgood. cbn [fst snd]. pose proof (N.mul_le_mono_l _ _ w' Hc'). nia. }
+      destruct Gk as [E2 H2]. cbn [snd] in E2, H2.
+      assert (Hc2 : uoff (snd kr) <= len (ubuf (snd kr))) by (rewrite E2; cbn [set_off ubuf uoff]; lia).
+      assert (L2 : len (ubuf (snd kr)) = len (ubuf c')) by (rewrite E2; exact L1).
+      assert (D2 : udepth (snd kr) = udepth c + 1) by (rewrite E2, E1; exact Hp).
+      pose proof (IHv (snd kr) Hwf Hc2 Hvf1 ltac:(lia)) as Gv. rewrite D2 in Gv. fold w' in Gv. unfold pgood in Gv.
+      unfold bind_s. destruct (unmarshal_ps (S vf) be vt (snd kr)) as [r s']. cbn [fst snd] in Gv |- *. unfold prgood.
+      destruct r as [vr| | | |]; cbn [fst snd lift]; try exact Gv.
+      - destruct Gv as (E3 & H3 & Hs3). rewrite L2 in H3.
+        split; [rewrite E3, E2, E1; reflexivity|]. split; [lia|].
+        pose proof (N.mul_le_mono_l (uoff c' + 1) (uoff (snd kr)) w' ltac:(lia)). nia.
+      - rewrite L2 in Gv. pose proof (N.mul_le_mono_l (uoff c' + 1) (uoff (snd kr)) w' ltac:(lia)). nia. }
+    pose proof (sub_loop_s_good (fun c' => udepth c' = udepth c + 1) one (w' + 1)
+             (fun c' o' Hp => Hp) Hone (S (N.to_nat n)) s []
+             ltac:(rewrite Ls, Es; cbn [uoff]; lia) ltac:(rewrite Es, Ec0; reflexivity)
+             ltac:(rewrite Ls, Es; cbn [uoff]; lia)) as G2. cbv zeta in G2.
+    assert (Hm : moved c0 c3) by (split; [rewrite Ec3; reflexivity|rewrite Ec3; cbn [set_off uoff]; lia]).
+    destruct (leave_moved _ _ _ Een Hm) as [E1 E2].
+    assert (Eo : uoff s = o) by (rewrite Es; reflexivity).
+    assert (Eu : uoff (u_leave c3) = o + n) by (rewrite Ec3; reflexivity).
+    assert (Eb : len (ubuf c0) = len (ubuf c) /\ uoff c0 = uoff c) by (rewrite Ec0; split; reflexivity). destruct Eb as [Eb1 Eb2].
+    unfold bind_s. destruct (sub_loop_s one _ s []) as [r2 s2]. cbn [fst snd] in G2 |- *. rewrite Ls, Eo in G2. unfold prgood.
+    destruct r2 as [vs| | | |]; cbn [fst snd lift]; try exact G2.
+    + split; [exact E1|]. rewrite Eu. split; [lia|].
+      pose proof (N.mul_le_mono_l (uoff c + 4 + n) (o + n) (w' + 2) ltac:(lia)). nia.
+    + pose proof (N.mul_le_mono_l (uoff c + n) (len (ubuf c)) (w' + 2) ltac:(lia)). nia.
+  - rewrite unmarshal_ps_variant_eq. apply pgood_tick.
+    destruct (u_enter c) as [c0| | | |] eqn:Een; try (unfold u_enter in Een; destruct (_ <=? _); discriminate); [|perr].
+    rewrite bind_s_lift_ok. pose proof (u_enter_ok _ _ Een) as [Hd Ec0].
+    rewrite (step_weight_succ _ Hd) in *. pose proof (step_weight_pos (udepth c + 1)) as Hw'. set (w' := step_weight (udepth c + 1)) in *.
+    unfold MAX_DEPTH in Hd.
+    assert (Hc0 : uoff c0 <= len (ubuf c0)) by (rewrite Ec0; exact Hc).
+    pose proof (u_read_sig_moved c0 Hc0) as G. destruct (u_read_sig c0) as [r| | | |]; try (exfalso; exact G); [|perr].
+    rewrite bind_s_lift_ok. destruct G as [[E1 H1] H1'].
+    pose proof (parse_description_total (fst r)) as Tp.
+    destruct (parse_description (fst r)) as [tys| | | |] eqn:Ep; try (exfalso; exact Tp); [|perr]. rewrite bind_s_lift_ok.
+    destruct tys as [|t' [|]]; try perr.
+    destruct (parse_single _ _ Ep) as [_ Htok].
+    assert (Hc1 : uoff (snd r) <= len (ubuf (snd r))) by (rewrite E1; cbn [set_off ubuf uoff]; lia).
+    assert (D1 : udepth (snd r) = udepth c + 1) by (rewrite E1, Ec0; reflexivity).
+    assert (L1 : len (ubuf (snd r)) = len (ubuf c)) by (rewrite E1, Ec0; reflexivity).
+    assert (Eb : len (ubuf c0) = len (ubuf c) /\ uoff c0 = uoff c) by (rewrite Ec0; split; reflexivity). destruct Eb as [Eb1 Eb2].
+    pose proof (IHvf t' (snd r) (type_ok_wf _ Htok) Hc1 ltac:(lia) ltac:(rewrite D1; lia)) as Gx.
+    rewrite D1 in Gx. fold w' in Gx. unfold pgood in Gx.
+    unfold bind_s. destruct (unmarshal_ps vf be t' (snd r)) as [r2 s2]. cbn [fst snd] in Gx |- *. unfold prgood.
+    destruct r2 as [x| | | |]; cbn [fst snd lift]; try exact Gx.
+    + destruct Gx as (E2 & H2 & Hs2).
+      assert (Hm : moved c0 (snd x)).
+      { apply (moved_trans _ (snd r)); split; try assumption. lia. }
+      destruct (leave_moved _ _ _ Een Hm) as [E3 E4]. split; [exact E3|].
+      change (uoff (u_leave (snd x))) with (uoff (snd x)) in *. rewrite L1 in H2. rewrite Eb2 in *.
+      split; [lia|]. pose proof (N.mul_le_mono_l (uoff c) (uoff (snd r)) w' ltac:(lia)). nia.
+    + rewrite L1 in Gx. rewrite Eb2 in *. pose proof (N.mul_le_mono_l (uoff c) (uoff (snd r)) w' ltac:(lia)).
+      pose proof (N.mul_le_mono_l (uoff c) (len (ubuf c)) 2 Hc). nia.
+Qed.
+
+(** the bound in closed form, for every outcome *)
+Corollary unmarshal_ps_bound be vf t c :
+  wf t = true -> uoff c <= len (ubuf c) -> (1 <= vf)%nat -> 65 <= N.of_nat vf + udepth c ->
+  let x := unmarshal_ps vf be t c in
+  snd x <= step_weight (udepth c) * (len (ubuf c) - uoff c) + step_weight (udepth c)
+  /\ (forall v c', fst x = Ok (v, c') ->
+        snd x <= step_weight (udepth c) * (uoff c' - uoff c) /\ uoff c < uoff c' <= len (ubuf c)).
+Proof.
+  intros Hw Ho H1 H2 x. pose proof (unmarshal_ps_good be vf t c Hw Ho H1 H2) as G. fold x in G. unfold pgood in G.
+  set (w := step_weight (udepth c)) in *.
+  assert (E : w * len (ubuf c) = w * (len (ubuf c) - uoff c) + w * uoff c) by nia.
+  split.
+  - destruct (fst x) as [r| | | |]; try (exfalso; exact G).
+    + destruct G as (_ & Hk & Hs). pose proof (N.mul_le_mono_l (uoff (snd r)) (len (ubuf c)) w ltac:(lia)). lia.
+    + lia.
+  - intros v c' En. rewrite En in G. cbn [snd] in G. destruct G as (_ & Hk & Hs). split; [|exact Hk].
+    assert (E' : w * uoff c' = w * (uoff c' - uoff c) + w * uoff c) by nia. lia.
+Qed.
+
+Lemma step_weight_le d : step_weight d <= 129.
+Proof. unfold step_weight, MAX_DEPTH. lia. Qed.
+
+(** the decoder at the fuel the operations use (66), any context: at most 129 steps per byte left in the buffer, plus 129;
+    a run that returns a value: at most 129 steps per byte consumed *)
+Theorem unmarshal_ps_66_bound be t c : wf t = true -> uoff c <= len (ubuf c) ->
+  snd (unmarshal_ps 66 be t c) <= 129 * (len (ubuf c) - uoff c) + 129
+  /\ (forall v c', fst (unmarshal_ps 66 be t c) = Ok (v, c') ->
+        snd (unmarshal_ps 66 be t c) <= 129 * (uoff c' - uoff c) /\ uoff c < uoff c' <= len (ubuf c)).
+Proof.
+  intros Hw Ho. pose proof (unmarshal_ps_bound be 66 t c Hw Ho ltac:(lia) ltac:(cbn; lia)) as [B1 B2]. cbv zeta in B1, B2.
+  pose proof (step_weight_le (udepth c)) as Hl. split.
+  - pose proof (N.mul_le_mono_r _ _ (len (ubuf c) - uoff c) Hl). lia.
+  - intros v c' E. destruct (B2 v c' E) as [B3 B4]. split; [|exact B4].
+    pose proof (N.mul_le_mono_r _ _ (uoff c' - uoff c) Hl). lia.
+Qed.
